@@ -688,7 +688,7 @@ func runC07(e *Engine, g G, o RunOpt) RunInfo {
 			continue
 		}
 		if strings.Contains(lt.Stack, "Router).route") && strings.Contains(lt.Header, "chan send") {
-			e.Violate("C07", "blocked-after-context-end", "a routing goroutine is still blocked delivering a response although every context has ended (%s)", lt.Header)
+			e.Violate("C07", "blocked-after-context-end", "a routing goroutine is still blocked delivering a response although every context has ended\n%s", lt.Header)
 			break
 		}
 	}
